@@ -13,9 +13,9 @@ git apply $OUT/mut$N.diff || { echo "APPLY FAILED"; exit 9; }
 go1.26 build ./... || { echo "BUILD FAILED"; git checkout -q -- .; exit 1; }
 go1.26 test -vet=off -count=1 ./... > /tmp/confirm_suite.log 2>&1; SUITE=$?
 cp $DEMO $WT/$PKG/
-go1.26 test -vet=off -count=1 -run 'Demo' ./$PKG > /tmp/confirm_demo_with.log 2>&1; WITH=$?
+go1.26 test -vet=off -count=1 -run 'Demo|Seeded|Late|Interval' ./$PKG > /tmp/confirm_demo_with.log 2>&1; WITH=$?
 git checkout -q -- .
-go1.26 test -vet=off -count=1 -run 'Demo' ./$PKG > /tmp/confirm_demo_without.log 2>&1; WITHOUT=$?
+go1.26 test -vet=off -count=1 -run 'Demo|Seeded|Late|Interval' ./$PKG > /tmp/confirm_demo_without.log 2>&1; WITHOUT=$?
 rm -f $WT/$PKG/zz_demo_${N}_test.go; git clean -fdq
 echo "$NAME: suite_with_change=$SUITE (want 0) demo_with=$WITH (want !=0) demo_without=$WITHOUT (want 0)"
 if [ $SUITE -eq 0 ] && [ $WITH -ne 0 ] && [ $WITHOUT -eq 0 ]; then
